@@ -1,6 +1,6 @@
 """C12 - filter/breakpoint commands accumulate alternatives and exclusions.
 History + model: sequences of 1..12 `filter` / `breakpoint` commands (alternatives only, exclusions only, both, `*`, `!`,
-`* ! x`, malformed) go through Controller.process_command; after EVERY step the controller's two matchers are evaluated
+`* ! x`, malformed; last step in 3 of 10: an alternative nothing can match) go through Controller.process_command; after EVERY step the controller's two matchers are evaluated
 over a universe of real messages (hooked state) and must lie inside the [must, may] interval of the accumulation model
 (vlib/joinref.py); a malformed text must print an error line and change nothing.  At the end of a sequence the boundary
 is observed too: the universe is streamed through a session primed with the same commands and the lines shown /
@@ -11,7 +11,7 @@ from ..runner import h64
 from . import c05
 
 PROPERTY = 'C12'
-RULE = ('command sequences of length 1..12 per matcher kind, steps drawn from {alternatives, exclusions, both, *, !, * ! x, malformed}, '
+RULE = ('command sequences of length 1..12 per matcher kind, steps drawn from {alternatives, exclusions, both, *, !, * ! x, malformed}, 30% of the sequences ending with a command whose only alternative is structurally unsatisfiable (x(!), [!].y, ...), '
         'spelled filter/f/wlf/wl filter and breakpoint/b/wlb; matchers are depth-1 expressions over the universe vocabulary; '
         'universe = 3-connection stream of real messages. distinct = hash of the command sequence; non-trivial = sequence with '
         '>= 2 well-formed steps where the selection is neither empty nor everything at some step')
